@@ -19,7 +19,8 @@ for f in sorted(glob.glob(os.path.join(VERIF, "seeded", "*", "meta.json"))):
 out = ["# Seeded changes", "",
        "Each change was produced by a fresh sub-agent that saw only the property text and a scratch worktree, compiles, keeps the 142 baseline tests green,",
        "and comes with a demonstration test that fails with the change and passes without (re-verified by tools/seed_verify.sh).",
-       "`caught by` lists the registered quick checks that exit 1 with a VIOLATION line when the patch is applied to /repo (tools/seed_eval.py).", "",
+       "`caught by` lists the registered quick checks that exit 1 with a VIOLATION line when the patch is applied to /repo (tools/seed_eval.py);",
+       "for waves e and f (`-e1`, `-f1`) the monitor binary of the named commit was run against a private clone of /repo with the patch applied (no sanitizer legs; `what_was_run` in each meta.json).", "",
        "| seed | property | files | confirmed | caught by (quick) | change (from the agent's notes) |", "|---|---|---|---|---|---|"]
 for r in rows:
     out.append(f"| {r[0]} | {r[1]} | {r[2]} | {r[3]} | {r[4]} | {r[6]} |")
